@@ -13,7 +13,8 @@ Mirrored, with the place in `lang.py`:
 * `visit_sequence` / `visit_choice` / `visit_textx_rule_body`: a sequence or
   choice node per written group (groups of one element are outside the modelled
   syntax and rejected as `unsupported`, the harness never writes them);
-* `visit_repeatable_expr`: `? * +` wrappers, `#` taking the operand's `nodes`,
+* `visit_repeatable_expr`: `? * +` wrappers, `#` taking the `nodes` of a parenthesised sequence / choice
+  and any other operand as its only element (the repaired code),
   separator (`rule_name = "sep"`) and `eolterm` modifiers, the suppression flag;
   modifiers on `?` are a `TextXSyntaxError`;
 * `visit_expression`: `!` / `&` predicates;
@@ -113,7 +114,12 @@ def wf : Expr → Bool
   | .str .. | .re .. | .ref .. => true
   | .seq xs _ | .alt xs _ => decide (2 ≤ xs.length) && wfList xs
   | .rep _ x _ _ _ => wf x
-  | .unord xs _ _ _ => decide (2 ≤ xs.length) && wfList xs
+  | .unord xs _ _ _ =>
+      -- `(x y …)#` / `(x | y …)#` unpack the group; any other operand is the only element (`x#`), so a
+      -- one-element group whose element is an unsuppressed sequence / choice cannot be written
+      (match xs with
+       | [] | [.seq _ false] | [.alt _ false] => false
+       | _ => true) && wfList xs
   | .asgn _ _ rhs _ _ _ => simpleOperand rhs
   | .pred _ x _ =>
       match x with
